@@ -105,6 +105,9 @@ package bstree
 //@ func (*bstree.BsTree).Size
 //@   property C04 C01 C02
 //@   lock b.mu : none
+//@   ghost-param repr map[*Node]set[*Node]
+//@   ghost-param keys map[*Node]set[K]
+//@   ghost-param vals map[*Node]map[K]V
 //@   ensures result == b.size
 
 //@ func (*bstree.BsTree).Get
@@ -139,10 +142,12 @@ package bstree
 //@   ensures nvals[b.root][key] == val && forall k K :: { nvals[b.root][k] } old(b.root) != nil && k in keys[old(b.root)] && k != key ==> nvals[b.root][k] == vals[old(b.root)][k]
 //@   ensures b.size == old(b.size) + ((old(b.root) != nil && key in keys[old(b.root)]) ? 0 : 1)
 //@   call upsert#1 ghost repr = repr; keys = keys; vals = vals
+//@   release-views repr = nrepr; keys = nkeys; vals = nvals
 
 //@ func (*bstree.Node).min
 //@   property C04 C01
 //@   ghost-param b *BsTree
+//@   lock b.mu : R
 //@   ghost-param repr map[*Node]set[*Node]
 //@   ghost-param keys map[*Node]set[K]
 //@   ghost-param vals map[*Node]map[K]V
@@ -256,6 +261,7 @@ package bstree
 //@   ensures n != nil && result0 != nil ==> (forall k K :: { k in nkeys[result0] } k in nkeys[result0] <==> (k in keys[n] && k != key)) && (forall k K :: { nvals[result0][k] } k in nkeys[result0] ==> nvals[result0][k] == vals[n][k])
 //@   ensures n != nil ==> frameOutsideK(n, repr, keys, vals, nrepr, nkeys, nvals)
 //@   call delete#1 ghost repr = repr; keys = keys; vals = vals
+//@   release-views repr = nrepr; keys = nkeys; vals = nvals
 //@   call delete#2 ghost repr = repr; keys = keys; vals = vals
 //@   call delete#3 ghost repr = repr; keys = keys; vals = vals
 //@   call min#1 ghost b = b; repr = repr; keys = keys; vals = vals
@@ -277,3 +283,7 @@ package bstree
 //@   ensures b.root != nil ==> valid(b.root, b.comp, nrepr, nkeys, nvals) && (forall k K :: { k in nkeys[b.root] } k in nkeys[b.root] <==> (k in keys[old(b.root)] && k != key)) && (forall k K :: { nvals[b.root][k] } k in nkeys[b.root] ==> nvals[b.root][k] == vals[old(b.root)][k])
 //@   ensures b.size == old(b.size) - ((old(b.root) != nil && key in keys[old(b.root)]) ? 1 : 0)
 //@   call delete#1 ghost repr = repr; keys = keys; vals = vals
+//@   release-views repr = nrepr; keys = nkeys; vals = nvals
+
+//@ guards bstree.BsTree.mu : root, size, all bstree.Node, all bstree.Item
+//@ lockinv bstree.BsTree : totalOrd(self.comp) && (self.root == nil || valid(self.root, self.comp, repr, keys, vals))
